@@ -178,7 +178,7 @@ func runC10(rc *RC) {
 				calls = append(calls, c)
 				c.err = doTx(ctx, e.Sess, c.kind, c.pad+c.marker)
 				c.ret, c.done = rc.S.Steps, true
-				cancel()
+				simrt.Settle(cancel, "h:cancel")
 			}
 		})
 	}
